@@ -45,7 +45,8 @@
                       a wake-up by somebody who has not pushed is rejected
      run_coroutine    LResume at PRes (after sc.pop / sc.steal) - the coroutine resumed is the one the model popped;
                       LCoRet when the worker's next loop event arrives with its stack unwound
-   Pushers: fetch_add fixes the target k = value mod workers; the spawner's ASpawn is taken at that moment (with the
+   sp.call(j, flags): flags bit 3 = Builder::id(flags >> 8): ASpawn with that id at once (schedule_global_with_id has no
+   fetch_add).  Pushers: fetch_add fixes the target k = value mod workers; the spawner's ASpawn is taken at that moment (with the
    recorded counter value as explicit id when the model's round-robin counter differs: SchedModel does not count the
    fetch_add of anonymous wakers), the kernel half of a non-worker thread is KFA (or KStore + anonymous Wake when the
    counters differ).  co.body_end: AFinish and the wrapper's three accesses (the Join protocol is C01.v's acceptor);
@@ -210,7 +211,10 @@ Definition plan_ev (l : lst) (x : aux) (ct : N) (e : list Z) : option plan :=
     match code with
     (* ---- scenario ---- *)
     | 1 => let j := Z.to_nat o in
-           guardb (is_pdnone (pnd x t) && negb (spawned (co s j))) (P [] tt_ (set_pnd x t (PdSpawn j)))
+           guardb (is_pdnone (pnd x t) && negb (spawned (co s j)))
+             (if Z.testbit v 3
+              then P (B [ASpawn t j (Some (Z.to_nat (Z.shiftr v 8))) false]) tt_ x     (* Builder::id: schedule_global_with_id *)
+              else P [] tt_ (set_pnd x t (PdSpawn j)))
     | 2 => guardb (is_pdnone (pnd x t) && spawned (co s (Z.to_nat o)))
              (match agent_pc s t with Some Idle => P [] tt_ x | _ => None end)
     (* ---- worker loop: Selector::select ---- *)
